@@ -163,7 +163,7 @@ def hoist_returns(tree):
     count = 0
     for fn in [n for n in ast.walk(tree) if isinstance(n, (ast.FunctionDef, ast.AsyncFunctionDef))]:
         names = {x.id for x in ast.walk(fn) if isinstance(x, ast.Name)} | {a.arg for a in ast.walk(fn) if isinstance(a, ast.arg)}
-        tmp = "ret_tmp"
+        tmp = "ret_" + fn.name.strip("_")
         while tmp in names:
             tmp += "_"
         for n in [fn] + [x for x in own_nodes(fn) if not isinstance(x, SCOPES)]:
